@@ -131,6 +131,9 @@ class Translator:
             return 'list (Z)'
         if q in self.records:
             return q
+        m = re.match(r'__gnu_cxx::__alloc_traits<allocator<(.*)>, (.*)>::value_type$', q)
+        if m:
+            return self.ctype(m.group(2))
         if '__normal_iterator<' in q or q.endswith('::iterator') or q.endswith('::const_iterator') or q.endswith('::difference_type'):
             return 'Z'
         m = re.match(r'boost::optional<(.*)>$', q)
@@ -185,7 +188,7 @@ class Translator:
         if k in ('CXXOperatorCallExpr', 'CXXMemberCallExpr', 'CallExpr'):
             cal = self.callee(node)
             if cal is not None:
-                if cal[0] in ('deref', 'ndidx', 'ndadd', 'itderef'):
+                if cal[0] in ('deref', 'ndidx', 'ndadd', 'itderef', 'vecidx'):
                     return True
                 f = self.funcs.get(cal[1]) if cal[0] == 'fn' else None
                 if f and f['monadic']:
@@ -231,6 +234,8 @@ class Translator:
                 return ('hasattr', obj, inner[1])
             if nm == 'getAttr' and len(inner) == 3:
                 return ('getattr', obj, inner[1], inner[2])
+            if nm == 'resize' and len(inner) == 2 and self.is_vector(obj):
+                return ('vecresize', obj, inner[1])
             if nm in ('begin', 'cbegin') and len(inner) == 1:
                 return ('itbegin', obj)
             if nm in ('end', 'cend') and len(inner) == 1:
@@ -264,11 +269,16 @@ class Translator:
                 return ('stridx', args[0], args[1])
             if nm == 'operator[]' and self.is_ndsize(args[0]):
                 return ('ndidx', args[0], args[1])
+            if nm == 'operator[]' and self.is_vector(args[0]):
+                return ('vecidx', args[0], args[1])
             if nm == 'operator+' and len(args) == 2 and self.is_ndsize(args[0]) and self.is_ndsize(args[1]):
                 return ('ndadd', args[0], args[1])
             if len(args) == 2 and self.is_ndsize(args[0]) and self.is_ndsize(args[1]) and nm in self.funcs_pending:
                 return ('fn', nm, args)
-            if nm in ('operator==', 'operator!=') and len(args) == 2 and self.is_string(args[0]) and self.is_string(args[1]):
+            def strish(a):
+                return self.is_string(a) or self.strip(a).get('kind') == 'StringLiteral'
+            if nm in ('operator==', 'operator!=') and len(args) == 2 and strish(args[0]) and strish(args[1]) and \
+                    (self.is_string(args[0]) or self.is_string(args[1])):
                 return ('streq', args[0], args[1], nm == 'operator!=')
             if nm == 'operator=':
                 return ('assign', args[0], args[1])
@@ -283,6 +293,8 @@ class Translator:
             nm = ref.get('referencedDecl', {}).get('name', '')
             if nm in ('ceil', 'floor', 'round', 'fabs'):
                 return ('math', nm, inner[1:])
+            if nm == 'min' and len(inner) == 3:
+                return ('zmin', inner[1], inner[2])
             if nm == 'prev' and len(inner) >= 2 and self.is_iter(inner[1]):
                 extra = [a for a in inner[2:] if a.get('kind') != 'CXXDefaultArgExpr']
                 if extra:
@@ -416,6 +428,15 @@ class Translator:
                 return b, '(opt_is_some %s)' % t
             if cal[0] == 'ambientcall':
                 return [], cname(cal[1])
+            if cal[0] == 'vecidx':
+                b1, t1 = self.expr(cal[1], cx)
+                b2, t2 = self.expr(cal[2], cx)
+                v = cx.fresh('el')
+                return b1 + b2 + [(v, '(vec_get %s %s)' % (t1, t2))], v
+            if cal[0] == 'zmin':
+                b1, t1 = self.expr(cal[1], cx)
+                b2, t2 = self.expr(cal[2], cx)
+                return b1 + b2, '(Z.min %s %s)' % (t1, t2)
             if cal[0] == 'itbegin':
                 cx.iter_of = cal[1]
                 return [], '(0)'
@@ -614,6 +635,10 @@ class Translator:
         self.globals[nm] = t
         return t
 
+    def is_vector(self, n):
+        q = self.strip(n).get('type', {}).get('qualType', '').replace('const ', '').replace('std::', '').strip()
+        return q.startswith('vector<')
+
     def is_iter(self, n):
         q = self.strip(n).get('type', {}).get('qualType', '')
         return '__normal_iterator<' in q or q.replace('const ', '').strip().endswith('::iterator')
@@ -638,8 +663,17 @@ class Translator:
         return q in ('NDSize', 'NDSizeBase<ndsize_t>', 'NDSizeBase<unsigned long long>')
 
     def is_string(self, n):
-        q = self.strip(n).get('type', {}).get('qualType', '').replace('const ', '').replace('&', '').strip()
-        return q in ('std::string', 'std::basic_string<char>', 'string', 'basic_string<char>')
+        sn = self.strip(n)
+        q = sn.get('type', {}).get('qualType', '').replace('const ', '').replace('&', '').strip()
+        if q in ('std::string', 'std::basic_string<char>', 'string', 'basic_string<char>'):
+            return True
+        # an element of a vector<string> (its type is spelled through allocator traits)
+        if sn.get('kind') == 'CXXOperatorCallExpr' and len(sn.get('inner', [])) == 3:
+            ref = self.strip(sn['inner'][0])
+            if ref.get('referencedDecl', {}).get('name') == 'operator[]':
+                vq = self.strip(sn['inner'][1]).get('type', {}).get('qualType', '')
+                return 'vector<' in vq and ('string' in vq)
+        return False
 
     def is_optional(self, n):
         return 'optional' in self.strip(n).get('type', {}).get('qualType', '')
@@ -725,6 +759,14 @@ class Translator:
             t = self.strip(n['inner'][0])
             if t.get('kind') == 'DeclRefExpr':
                 acc.add(t['referencedDecl']['name'])
+            if t.get('kind') == 'CXXOperatorCallExpr':
+                c0 = self.callee(t)
+                if c0 and c0[0] == 'vecidx' and self.strip(c0[1]).get('kind') == 'DeclRefExpr':
+                    acc.add(self.strip(c0[1])['referencedDecl']['name'])
+        if k == 'CXXMemberCallExpr':
+            c0 = self.callee(n)
+            if c0 and c0[0] == 'vecresize' and self.strip(c0[1]).get('kind') == 'DeclRefExpr':
+                acc.add(self.strip(c0[1])['referencedDecl']['name'])
         if k == 'CXXOperatorCallExpr':
             cal = self.callee(n)
             if cal and cal[0] == 'assign':
@@ -772,6 +814,8 @@ class Translator:
         """translate statement list followed by continuation `cont` (None = falls off the end)"""
         if not lst:
             if cont is None:
+                if getattr(cx, 'out_params', None):
+                    return self.ret('(%s)' % ', '.join(cname(o) for o in cx.out_params), cx)
                 if cx.rty == 'unit':
                     return self.ret('tt', cx)
                 raise Unsupported('control reaches end of %s without return' % cx.fname)
@@ -822,6 +866,51 @@ class Translator:
                 raise Unsupported('throw in pure function')
             qt = s['inner'][0]['type']['qualType'] if s.get('inner') else 'exception'
             return 'Err "%s"' % qt.replace('const ', '')
+        if k == 'BinaryOperator' and s.get('opcode') == '=' and self.strip(s['inner'][0]).get('kind') == 'CXXOperatorCallExpr':
+            c0 = self.callee(self.strip(s['inner'][0]))
+            if not c0 or c0[0] != 'vecidx' or self.strip(c0[1]).get('kind') != 'DeclRefExpr':
+                raise Unsupported('assignment target')
+            nm = self.strip(c0[1])['referencedDecl']['name']
+            bi, ti = self.expr(c0[2], cx)
+            b, t = self.expr(s['inner'][1], cx)
+            v = cx.fresh('vs')
+            return self.emit_binds(bi + b + [(v, '(vec_set %s %s %s)' % (cname(nm), ti, t))],
+                                   'let %s : %s := %s in\n%s' % (cname(nm), cx.types[nm], v, nxt()), cx)
+        if k == 'CXXMemberCallExpr' and self.callee(s) and self.callee(s)[0] == 'vecresize':
+            c0 = self.callee(s)
+            tgt = self.strip(c0[1])
+            if tgt.get('kind') != 'DeclRefExpr':
+                raise Unsupported('resize target')
+            nm = tgt['referencedDecl']['name']
+            b, t = self.expr(c0[2], cx)
+            return self.emit_binds(b, 'let %s : %s := (vec_resize %s %s) in\n%s' % (cname(nm), cx.types[nm], cname(nm), t, nxt()), cx)
+        if k == 'CXXTryStmt':
+            # try { <statements> } catch (...) { throw E(...); }: every exception raised inside becomes E
+            body_, handlers = s['inner'][0], s['inner'][1:]
+            if len(handlers) != 1:
+                raise Unsupported('try with several handlers')
+            hb = [c for c in handlers[0].get('inner', []) if c.get('kind') == 'CompoundStmt']
+            hs = hb[0].get('inner', []) if hb else []
+            thr = self.strip(hs[0]) if len(hs) == 1 else {}
+            if thr.get('kind') == 'ExprWithCleanups':
+                thr = thr['inner'][0]
+            if thr.get('kind') != 'CXXThrowExpr' or not thr.get('inner'):
+                raise Unsupported('catch handler that is not a single throw')
+            exc = thr['inner'][0]['type']['qualType'].replace('const ', '')
+            av = sorted(v for v in self.assigned(body_, set()) if v in cx.types)
+            cx.kcount += 1
+            kn = 'k%d' % cx.kcount
+            params = ' '.join('(%s : %s)' % (cname(v), cx.types[v]) for v in av) or '(_ : unit)'
+            tup = ('(%s)' % ', '.join(cname(v) for v in av)) if len(av) != 1 else cname(av[0])
+            tupty = ' * '.join(cx.types[v] for v in av) if av else 'unit'
+            if not av:
+                tup = 'tt'
+            # the protected block as a computation of the assigned variables
+            saved = cx.rty
+            inner_term = self.stmts(list(body_.get('inner', [])), cx, lambda: 'Ok %s' % tup)
+            pat = tup if len(av) <= 1 else "'" + tup
+            return ('bind (catch_all (%s) "%s") (fun %s =>\n%s)' % (inner_term, exc, ('r_' + kn),
+                    ('let %s := r_%s in\n' % (pat, kn) if av else '') + nxt()))
         if k == 'BinaryOperator' and s.get('opcode') == '=':
             tgt = self.strip(s['inner'][0])
             if tgt.get('kind') != 'DeclRefExpr':
@@ -1011,7 +1100,7 @@ class Translator:
         return out
 
     # ---------------------------------------------------------------- functions
-    def function(self, decl, key, coqname, record=None, ambient=None, skip_params=None):
+    def function(self, decl, key, coqname, record=None, ambient=None, skip_params=None, out_params=None):
         body = [c for c in decl.get('inner', []) if c.get('kind') == 'CompoundStmt']
         if not body:
             raise Unsupported('no body for ' + key)
@@ -1031,6 +1120,11 @@ class Translator:
             ps.append('(%s : %s)' % (cname(nm), ty))
         rq = decl['type']['qualType'].split('(')[0].strip()
         rty = self.ctype(rq)
+        cx.out_params = list(out_params or [])
+        if cx.out_params:
+            if rty != 'unit':
+                raise Unsupported('output parameters on a function that returns a value')
+            rty = ' * '.join(cx.types[o] for o in cx.out_params)
         self.funcs[key] = {'coq': coqname, 'monadic': monadic, 'ret': rty, 'nparams': len(ps)}
         cx.rty = rty
         cx.coqname = coqname
